@@ -33,6 +33,11 @@ def main() -> int:
             if a.replay:
                 return rx_check.replay(a.prop, a.replay)
             return rx_check.run_check(a.prop, a.tier)
+        if a.prop in ("C19", "C20"):
+            from engine import exc_check
+            if a.replay:
+                return exc_check.replay(a.prop, a.replay)
+            return exc_check.run_check(a.prop, a.tier)
         if a.prop == "C08":
             from engine import par_check
             if a.replay:
